@@ -259,7 +259,7 @@ impl Property for C06 {
         }
     }
     fn rule(&self) -> &'static str {
-        "generated crate trees in which a random subset of the reachable files is already formatted; the real binary runs on fresh copies (mtimes preset to a fixed past instant) in every mode: --check, --check -l, --emit stdout, --emit json, --emit checkstyle, --emit files, files with -l / --backup / --quiet, standard input for the root, and the histories check;format;check and format;format; oracle: the non-writing modes change no byte and no mtime; files mode rewrites exactly the files whose formatted text differs and leaves the mtime of the others alone; with no error --check exits 1 iff files mode rewrites a file; the stdout sections, the files-mode bytes, the stdin text of the root and the text obtained by applying the json blocks to the original are identical; the checkstyle messages are lines of the formatted text at the stated numbers; -l lists exactly the rewritten files; --backup leaves a .bk with the original for exactly those; after format, check passes and a second format touches nothing; non-trivial = at least one unformatted and one formatted reachable file; distinct by case content"
+        "generated crate trees in which a random subset of the reachable files is already formatted; the real binary runs on fresh copies (mtimes preset to a fixed past instant) in every mode: --check, --check -l, --emit stdout, --emit json, --emit checkstyle, --emit files, files with -l / --backup / --quiet, standard input for the root, and the histories check;format;check and format;format; oracle: the non-writing modes change no byte and no mtime; files mode rewrites exactly the files whose formatted text differs and leaves the mtime of the others alone; with no error --check exits 1 iff files mode rewrites a file; the stdout sections, the files-mode bytes, the stdin text of the root and the text obtained by applying the json blocks to the original are identical; the checkstyle messages are lines of the formatted text at the stated numbers; -l lists exactly the rewritten files; --backup leaves a .bk with the original for exactly those; after format, check passes and a second format touches nothing; one case in four is instead a single real file with LF or CRLF terminators, formatted or not, under newline_style Auto / Unix / Windows / Native given by --config or a rustfmt.toml: --check (also with --backup), -l, --emit stdout (also with --backup) and files mode (with and without --backup) must all agree on the expected bytes (formatted text with the terminators the style asks for) and the read-only modes write nothing; non-trivial = at least one unformatted and one formatted reachable file; distinct by case content"
     }
     fn generate(&self, c: &mut Choices<'_>, _g: &GenCtx) -> Value {
         if c.chance(1, 4) {
